@@ -25,7 +25,8 @@ LEVEL_TEXT = ("Generated configuration files (1-4 servers; args with spaces, quo
               "interpreter; a per-case witness executable must be launched exactly once per requested server with exactly "
               "the configured arguments and environment and must see the initialized notification. Malformed configurations "
               "must raise the documented exception types."
-              " Unknown names are placed first, last and between known ones in the runner's list.")
+              " Unknown names are placed first, last and between known ones in the runner's list."
+              ' Also bare commands resolved through the configured PATH with a same-named decoy on the host PATH, and a load preceded by a caller editing the previously returned parameters.')
 LEVEL_NOTE = ("Trusted: the witness (children/witness.py) reading /proc/self/cmdline and /proc/self/environ; the harness "
               "environment passed to each entry-point process is known, so the documented inherited subset is computable.")
 RULE = ("case = (config, requested servers, entry point) or (malformed class). Non-trivial: all (each launches real "
@@ -88,6 +89,16 @@ if mode == "loader":
         res = {}
         for n in names:
             try:
+                # an earlier caller loaded the same entry and edited what it got back (appended a flag, set a variable):
+                # the next load must still describe the file, not the edited object
+                try:
+                    early, _t = await load_config(cfg_path, n)
+                    if isinstance(getattr(early, "args", None), list):
+                        early.args.append("EDITED-BY-EARLIER-CALLER")
+                    if isinstance(getattr(early, "env", None), dict):
+                        early.env["VF_EDITED_BY_EARLIER_CALLER"] = "1"
+                except BaseException:
+                    pass
                 loaded = await load_config(cfg_path, n)
                 params, tmo = loaded
                 res[n] = {"params_type": type(params).__name__, "timeout": tmo, "timeout_type": type(tmo).__name__}
